@@ -115,6 +115,11 @@ GRAMMARS = [
      {'cap': 4, 'maxch': 2, 'maxd': 1, 'maxn': 3, 'action': 'bool', 'maxres': 1, 'stack': ['all'],
       'reach': [('e.r == 1 && %s && c12_veto(101, sp_start) == 2 && ts_id[0] == 102' % OK0, "the rule's own action throws, the guard catches: no node of that rule is left"),
                 ('e.r == 1 && ts_id[0] == 101', 'guarded branch kept')]}),
+    ('trycatch_act0', 'sor< try_catch_type_return_false< foreign_exc, named< 1, %s > >, %s >' % (S0, N2),
+     {'all': ALL},
+     {'cap': 4, 'maxch': 2, 'maxd': 1, 'maxn': 3, 'action': 'void0', 'maxres': 1, 'stack': ['all'],
+      'reach': [('e.r == 1 && %s && c12_veto(101, 0) == 2 && ts_id[0] == 102' % OK0, "the rule's own void apply0 throws, the guard catches: no node of that rule is left"),
+                ('e.r == 1 && ts_id[0] == 101', 'guarded branch kept')]}),
     ('deep', 'sor< seq< ' + 'seq< ' * 9 + N1 + ' >' * 9 + ', %s >, %s >' % (S1, N2),
      {'all': ALL},
      {'cap': 13, 'maxch': 2, 'maxd': 1, 'maxn': 3, 'mem_gb': 8, 'N': 2, 'maxres': 1, 'thorough': {'N': 2},
@@ -170,7 +175,7 @@ def plan(ctx):
                                    cbmc_defines={'VF_SPLIT': 1, 'V_' + mode: 1},
                                    bounds={'N': n, 'K': K, 'grammar': gtext, 'selector': sel if sel == 'all' else {str(k): v for k, v in sel.items()},
                                            'vector_capacity': cap, 'max_children': maxch, 'max_depth': maxd, 'max_nodes': maxn, 'checked': mode,
-                                           'action': 'vf::act_bool (veto / throw)' if action else 'nothing',
+                                           'action': {'bool': 'vf::act_bool (veto / throw)', 'void0': 'vf::act0_void (throw)'}.get(action, 'nothing'),
                                            'mode': 'apply_mode::action, rewind_mode::optional (fixed by parse_tree::parse)'},
                                    note='tree returned by the real parse_tree::parse == surviving derivation of the selected rules; result == plain parse'
                                         if mode == 'tree' else 'builder stack after the run: exactly the root, nothing below it unless the parse succeeded'))
